@@ -9,7 +9,7 @@
       0 not well-formed XML, 1 well-formed XML, 2 re-serialised by the model,
       3 rels item written by the model, 4 content types item written by the model.
     Operations (first field):
-      rt   package                      open, save, open, save
+      rt   package                      open, save, open, save; also prints wfb and no_default_clashb
       pres srckind package k rid*k      Presentation(): srckind m members, f not found, z not a zip
       reg  package                      regularise
 *)
@@ -218,7 +218,8 @@ Definition run_rt (p : phys wblob) : str :=
         | Err e => err_str e
         | Ok s2 => if same_members s1 s2 then w_same else w_diff
         end in
-      fields (w_ok_ :: graph_fields k ++ package_fields s1 ++ [second])
+      fields (w_ok_ :: show_bool (wfb wenv p) :: show_bool (no_default_clashb wenv p)
+              :: graph_fields k ++ package_fields s1 ++ [second])
   end.
 
 Fixpoint take_strs (n : nat) (fs : list str) : option (list str) :=
